@@ -5,7 +5,7 @@ import os
 from common import SPEC, Inconclusive, add_violations_from_bad, finish, log
 
 
-def tlc_histories(ctx, ids, depth, early=False):
+def tlc_histories(ctx, ids, depth, early=False, split=False, norecheck=False):
     cfg = """SPECIFICATION GenSpec
 CONSTANTS
   Ids = {%s}
@@ -13,20 +13,25 @@ CONSTANTS
   AsCoded = FALSE
   Crashes = FALSE
   Batched = TRUE
+  Recheck = %s
   Depth = %d
   Forks = TRUE
   Concs = TRUE
   Early = %s
+  SplitLock = %s
 INVARIANTS GenInv Dump
 CHECK_DEADLOCK FALSE
-""" % (", ".join(str(i) for i in ids), depth, "TRUE" if early else "FALSE")
-    if early:
+""" % (", ".join(str(i) for i in ids), "FALSE" if norecheck else "TRUE", depth, "TRUE" if early else "FALSE", "TRUE" if split else "FALSE")
+    if early or split or norecheck:
         return ctx.tlc("GroupChainGen", cfg_text=cfg.replace("INVARIANTS GenInv Dump", "INVARIANTS GenInv"), allow_violation=True), []
     res = ctx.tlc("GroupChainGen", cfg_text=cfg)
     hs = []
+    seen = set()
     for raw in ctx.tlc_lines(res, "HIST"):
         s = raw.strip()[1:-1].replace('\\"', '"')
-        hs.append(json.loads(s))
+        if s not in seen:     # an overlapping add has several outcomes in the model: one history
+            seen.add(s)
+            hs.append(json.loads(s))
     if not hs:
         raise Inconclusive("TLC generated no histories")
     return res, hs
@@ -94,13 +99,26 @@ def run(ctx):
     early, _ = tlc_histories(ctx, [1, 2], 3, early=True)
     if not early["error"]:
         raise Inconclusive("negative control: the early-predecessor-check variant was not refuted by the model")
+    split, _ = tlc_histories(ctx, [1, 2], 4, split=True)
+    if not split["error"]:
+        raise Inconclusive("negative control: the lock-per-removal variant of the fork switch was not refuted by the model")
+    norecheck, _ = tlc_histories(ctx, [1, 2], 4, norecheck=True)
+    if not norecheck["error"]:
+        raise Inconclusive("negative control: AddGroup without the id lookup under the lock was not refuted by the model")
     # histories ending in a group fork switch are numerous: the quick tier replays a seeded sample
     import random
     rng = random.Random(ctx.seed)
     concs = [h for h in hists if any(o["op"] == "Conc" for o in h)]
     if not concs:
         raise Inconclusive("TLC generated no history with overlapping calls")
-    plain = [h for h in hists if h[-1]["op"] not in ("Fork", "Conc")]
+    cforks = [h for h in hists if h[-1]["op"] == "ConcFork"]
+    if not cforks:
+        raise Inconclusive("TLC generated no history with an add overlapping a fork switch")
+    # the same with the call free to go for chain.lock while the removals are under way
+    rng.shuffle(cforks)
+    locks = [h[:-1] + [dict(h[-1], first="lock")] for h in cforks if h[-1]["j"] == 0]
+    cforks = cforks[:(600 if quick else 9000)] + locks[:(250 if quick else 3000)]
+    plain = [h for h in hists if h[-1]["op"] not in ("Fork", "Conc", "ConcFork")]
     forks = [h for h in hists if h[-1]["op"] == "Fork"]
     rng.shuffle(forks)
     # forks that are not a line (a group names something else than the group before it) first
@@ -111,7 +129,7 @@ def run(ctx):
     forks = bent[:(300 if quick else 8000)] + [h for h in forks if not any(p != 98 for p in h[-1]["pres"])]
     rng.shuffle(concs)
     log("histories: %d plain, %d ending in a fork switch, %d ending in overlapping calls" % (len(plain), len(forks), len(concs)))
-    hists = plain + (forks[:700] if quick else forks[:20000]) + (concs[:900] if quick else concs[:25000])
+    hists = plain + (forks[:700] if quick else forks[:20000]) + (concs[:900] if quick else concs[:25000]) + cforks
     drv = ctx.build("c19")
     # one driver process per chunk of histories: every history opens fresh stores (and the node's
     # logger set-up leaks two file descriptors per initialisation), so a process stays well below
@@ -144,6 +162,9 @@ def run(ctx):
     outs = ctx.run_parallel(argvs)
     calls = sum(int(o.split("calls=")[1].split()[0]) for o in outs)
     ncrash = sum(int(o.split("crashes=")[1].split()[0]) for o in outs)
+    nplaced = sum(int(o.split("placed=")[1].split()[0]) for o in outs)
+    if nplaced == 0:
+        raise Inconclusive("vacuity: no add was placed between two removals of a fork switch")
     if ncrash == 0:
         raise Inconclusive("vacuity: no process death was placed inside a call")
     nhist = sum(int(o.split("histories=")[1].split()[0]) for o in outs)
@@ -179,6 +200,10 @@ def run(ctx):
         "tlc_histories_replayed": len(hists),
         "fork_switch_histories_replayed": min(len(forks), 700 if quick else 20000),
         "overlapping_call_histories_generated": len(concs),
+        "add_overlapping_fork_switch_histories_replayed": len(cforks),
+        "add_overlapping_fork_switch_placed": nplaced,
+        "lock_per_removal_variant_refuted_in_model": bool(split["error"]),
+        "id_lookup_only_before_lock_variant_refuted_in_model": bool(norecheck["error"]),
         "overlapping_call_histories_replayed": min(len(concs), 900 if quick else 25000),
         "samples": samples,
         "design_level_inductive_invariant": proof,
@@ -198,5 +223,7 @@ def run(ctx):
         "a process death inside a call is a panic raised in the H2 hook in front of the k-th physical write of the call to the group store (k = 1.. number of writes), caught by the driver, after which the chain object is dropped and initGroupChain re-run over the stores as they are: what is in memory is lost, what was written stays; power loss (unsynced buffers) and a death inside LevelDB's own batch write are not modelled; the sqlite group index is not part of the judged state",
         "sqlite group index is present as in production",
         "lookups by height and id from six goroutines at once (no writer) after every third history, each answer compared with the single-goroutine answer taken just before",
+        "an add overlapping a fork switch, position known: the call is parked inside consensusHelper.CheckGroup (past its unlocked id check, made after the first removal) and released when the switch has added j of its groups; the switch waits inside CheckGroup of its next group until the call has returned",
+        "an add overlapping a fork switch, position left to the scheduler: the switch is held right after its first removal (the switch logs each removal: hook export VerifWrapSyncLogger) while a second goroutine calls AddGroup naming the then-last group; the hold ends when that call returns or after 40 ms (it is then waiting for chain.lock)",
         "overlapping calls: two AddGroup calls (or AddGroup and a removal) are both past the unlocked id check, inside consensusHelper.CheckGroup (the stub parks them), when the first one takes chain.lock; both release orders; finer schedules inside the locked sections do not exist (one mutex)",
     ])
